@@ -21,7 +21,44 @@ ASSUMPTIONS = ['random dependency graphs of the statement are replaced by all sh
                'hash seeds: a finite set of real seeds plus permutations at the order seams (a superset of seed effects at those seams)']
 
 
+def fixed_specs():
+    """hand-written workbooks for wiring patterns the generated family cannot express."""
+    from xl import models as M
+    K, cell, rng, op, fn, num, const = M.K, M.cell, M.rng, M.op, M.fn, M.num, M.const
+    B, C = M.B, M.C
+    base = {K('S', 'A1'): const(('n', 1.0)), K('S', 'A2'): const(('n', 2.0)), K('S', 'C1'): const(('n', 10.0)), K('S', 'C2'): const(('n', 20.0)),
+            K('S', 'B1'): const(('n', 5.0))}
+    out = {}
+    # one range feeding two operands of the same formula, one of them inside a pre-computed union / intersection
+    reps = {
+        'E1': op('+', op('*', fn('SUM', rng('S', 'C1:C2')), num(2)), fn('SUM', ['union', [rng('S', 'A1:A2'), rng('S', 'C1:C2')]])),
+        'E2': op('+', fn('SUM', ['union', [rng('S', 'A1:A2'), rng('S', 'C1:C2')]]), fn('SUM', rng('S', 'A1:A2'))),
+        'E3': op('+', fn('SUM', ['isect', rng('S', 'A1:C1'), rng('S', 'A1:A2')]), cell('S', 'A1')),
+        'E4': op('-', fn('MAX', rng('S', 'A1:C2')), fn('MIN', rng('S', 'A1:C2'))),
+        'E5': op('&', cell('S', 'A1'), op('&', cell('S', 'A1'), fn('SUM', rng('S', 'A1:A2'), cell('S', 'A1')))),
+        'E6': op('+', fn('COUNT', ['union', [rng('S', 'A1:B1'), rng('S', 'A1:A2'), rng('S', 'A1:B1')]]), fn('SUM', rng('S', 'A1:B1'))),
+        'E7': op('*', fn('SUM', ['isect', rng('S', 'A1:C2'), rng('S', 'B1:C1')]), fn('SUM', rng('S', 'B1:C1'))),
+    }
+    for k, node in reps.items():
+        out['rep-' + k] = {'cells': dict(base, **{K('S', k): node, K('S', 'F1'): op('+', cell('S', k), num(1))}), 'arrays': {}, 'names': {}, 'sheets': [[B, 'S']]}
+    out['rep-all'] = {'cells': dict(base, **{K('S', k): node for k, node in reps.items()}), 'arrays': {}, 'names': {}, 'sheets': [[B, 'S']]}
+    # a defined name of a linked book used by a formula of that linked book (the book may be loaded by completion only)
+    out['xbook-name'] = {
+        'cells': {K('S', 'C1'): op('+', cell('U', 'C1', C), num(1)), K('S', 'C2'): fn('SUM', rng('U', 'A1:A2', C)),
+                  K('U', 'A1', C): const(('n', 7.0)), K('U', 'A2', C): const(('n', 8.0)),
+                  K('U', 'C1', C): op('*', ['name', C, 'RATE'], num(2)), K('U', 'C2', C): fn('SUM', ['name', C, 'BOTH'])},
+        'arrays': {}, 'names': {'%s|RATE' % C: cell('U', 'A1', C), '%s|BOTH' % C: rng('U', 'A1:A2', C)}, 'sheets': [[B, 'S'], [C, 'U']]}
+    # the same sheet name in two books
+    out['same-sheet-name'] = {
+        'cells': {K('S', 'A1'): const(('n', 1.0)), K('S', 'B1'): op('+', cell('S', 'A1'), cell('S', 'A1', C)), K('S', 'A1', C): const(('n', 100.0)),
+                  K('S', 'A3', C): const(('n', 5.0)), K('S', 'B3', C): fn('SUM', rng('S', 'A1:A3', C)), K('S', 'B2'): op('*', cell('S', 'B3', C), num(2))},
+        'arrays': {}, 'names': {}, 'sheets': [[B, 'S'], [C, 'S']]}
+    return out
+
+
 def spec_of(case):
+    if 'fixed' in case:
+        return fixed_specs()[case['fixed']]
     return F.build(case['shape'], case.get('forms'), {int(k): v for k, v in (case.get('kinds') or {}).items()})
 
 
@@ -59,7 +96,7 @@ def run_wb(case):
     except W.Ambiguous:
         return result(0, ['skip:ambiguous-reference'])
     fails, oc, ex = [], [], 0
-    desc = dict(shape=json.dumps(case['shape']), forms=json.dumps(case.get('forms')), kinds=json.dumps(case.get('kinds')))
+    desc = dict(shape=json.dumps(case.get('shape', case.get('fixed'))), forms=json.dumps(case.get('forms')), kinds=json.dumps(case.get('kinds')))
 
     def judge(label, get_sol, loaded=None):
         nonlocal ex
@@ -128,7 +165,7 @@ def run_wb(case):
         if sched == 'files':
             loads = [list(p) for p in itertools.permutations(books)] + [[b] for b in books[:1]]
             so = X.books_of(spec)
-            sheet_orders = [None] + [{F.B1: list(p)} for p in itertools.permutations(so[F.B1])][1:]
+            sheet_orders = [None] + [{F.B1: list(p)} for p in itertools.permutations(so.get(F.B1, []))][1:]
         for ld in loads:
             for so in sheet_orders:
                 def go(ld=ld, so=so):
@@ -182,6 +219,11 @@ def wb_cases(tier):
 
 def sched_cases(tier):
     q = tier == 'quick'
+    for name in fixed_specs():
+        yield {'k': 'wb', 'fixed': name, 'paths': ['dict', 'file']}
+        yield {'k': 'wb', 'fixed': name, 'paths': ['dict'], 'sched': 'dict', 'full': False}
+        yield {'k': 'wb', 'fixed': name, 'paths': ['dict'], 'sched': 'assemble'}
+        yield {'k': 'wb', 'fixed': name, 'paths': ['file'], 'sched': 'files'}
     shapes2 = F.shapes(2)
     for i, shape in enumerate(shapes2):
         forms = [['range' if e == 0 else 'spillsum' for e in range(len(d))] for d in shape]
